@@ -86,7 +86,10 @@ def make_case(i, rng, tier):
                 break
         else:
             spec = ("leaf", "int")
-        return {"fam": "T", "spec": spec, "defs": rng.random() < 0.4, "inputs": [TS.gen_input(rng, spec) for _ in range(8)], "rng": rng}
+        # a top-level data class may carry Options(addition=True): unknown keys - and, through the options the fields inherit,
+        # surplus items of fixed-size tuples - are kept in what the parser produces
+        dc_opts = {"addition": True} if (spec[0] == "dc" and rng.random() < 0.4) else None
+        return {"fam": "T", "spec": spec, "defs": rng.random() < 0.4, "inputs": [TS.gen_input(rng, spec) for _ in range(8)], "rng": rng, "dc_opts": dc_opts}
     decl = D.gen_decl(rng, base="Schema")
     decl["options"].pop("mode", None)
     decl["options"].pop("force_default", None)   # a forced default need not conform to the field type (trusted by the library)
@@ -177,11 +180,16 @@ def run_T(case, ctx):
     b = TS.Builder(case["rng"])
     try:
         try:
-            T = Rule.parse_annotation(b.annotation(spec))
+            if case.get("dc_opts"):
+                from utype import Options
+                T = b.dataclass(spec, options=Options(**case["dc_opts"]))
+                ctx.count("data_classes_with_addition_true")
+            else:
+                T = Rule.parse_annotation(b.annotation(spec))
         except Exception as e:
             ctx.count("declaration_rejected:" + type(e).__name__)
             return
-        shape = TS.spec_shape(spec)
+        shape = TS.spec_shape(spec) if not case.get("dc_opts") else (TS.spec_shape(spec), "addition=True")
         wit = {"family": "T", "spec": TS.describe(spec)[:300], "with_defs": case["defs"]}
         docs = {}
         for view in ("input", "output"):
